@@ -434,7 +434,9 @@ static void textGrammar() {
     }
   }
   // value lists
-  struct { const char* type; int list; } L[] = {{"UCH", 1}, {"UCH", 3}, {"UIN", 3}, {"BI3:2", 1}, {"BI3:2", 2}, {"BDY", 1}, {"ULG", 3}};
+  struct { const char* type; int list; } L[] = {{"UCH", 1}, {"UCH", 3}, {"UIN", 3}, {"BI3:2", 1}, {"BI3:2", 2}, {"BDY", 1}, {"ULG", 3},
+    {"UCH", 4}, {"UCH", 5}, {"UCH", 6}, {"UCH", 8}, {"UIN", 4}, {"UIR", 6}, {"ULG", 5}, {"BI3:2", 5}, {"BI3:2", 6}, {"BI0:7", 8},
+    {"PIN", 7}, {"PIN", 6}, {"BCD", 5}, {"HDY", 6}, {"SCH", 8}};
   for (auto& l : L) {
     Cfg c;
     if (!E.openCfg(&c, l.type, 0, l.list, false, 1)) continue;
